@@ -419,6 +419,38 @@ def passwdQuery (s : FS) (uid : Int) (off len : Nat) : Out :=
       let r := (s.bytes.drop o.toNat).take len
       if r.length < len then .recs .err [] else .recs .ok [(uid.toNat, r)]
 
+/-- cache.SetUMoney / DeUMoney → passwdUpdateMoney: the 4-byte Money field of user `uid`, in place
+(same guard `1 <= uid <= MAX_USERS`). -/
+def moneyUpdate (s : FS) (uid : Int) (money : Int) : FS × Out :=
+  passwdUpdate s uid Gen.RecFile.pwOffMoney (le32 (money % 4294967296).toNat)
+
+/-- a batch of money updates in some order (the order the concurrent callers happened to be served in). -/
+def moneyBatch (s : FS) (us : List (Int × Int)) : FS := us.foldl (fun s u => (moneyUpdate s u.1 u.2).1) s
+
+/-- ptt.pwcuStart … pwcuEnd, the read-modify-write of a whole record on behalf of a session that holds the
+pair (uid, user-id): the record is read, the pair is refused unless `same` holds between the user-id held
+and the record's user-id, the modification `f` is applied and the record is written back with its Money
+field taken from the shared-memory cache (`shmMoney`, an input). -/
+def pwcuModifyG (same : List Nat → List Nat → Bool) (s : FS) (uid : Int) (held : List Nat) (shmMoney : Int)
+    (f : List Nat → List Nat) : FS × Out :=
+  match passwdQuery s uid 0 Gen.RecFile.packedUserecRaw with
+  | .recs .ok [(_, r)] =>
+    if same held (field r Gen.RecFile.pwOffUserID Gen.RecFile.pwLenUserID) then
+      passwdUpdate s uid 0 (setField (f r) Gen.RecFile.pwOffMoney Gen.RecFile.pwLenMoney (le32 (shmMoney % 4294967296).toNat))
+    else (s, .unit .invalidIdx)                           -- ErrInvalidUserID
+  | .recs .invalidIdx _ => (s, .unit .invalidIdx)
+  | _ => (s, .unit .err)
+
+/-- the comparison as the source has it (regenerated): `types.Cstrcmp(...) != 0` refuses. -/
+def pwcuSame (a b : List Nat) : Bool :=
+  if Gen.RecFile.pwcuStartComparesExact then cstrcmpEq a b
+  else cstrcmpEq (a.map fun c => if 65 ≤ c ∧ c ≤ 90 then c + 32 else c) (b.map fun c => if 65 ≤ c ∧ c ≤ 90 then c + 32 else c)
+
+/-- pwcuBitEnableLevel as it is today (`_ = pwcuEnableBit(…)`: the level is not changed; the write-back
+only syncs Money). -/
+def pwcuModify (s : FS) (uid : Int) (held : List Nat) (shmMoney : Int) : FS × Out :=
+  pwcuModifyG pwcuSame s uid held shmMoney id
+
 /-! ### operations and histories -/
 
 inductive Op where
